@@ -60,55 +60,31 @@ func (c *Ctx) reaches(fn *ssa.Function, depth int, pred func(*core.Call) bool) b
 // (static calls, depth 3) and that do not statically call another such function: the innermost function that still
 // does the whole job. Robust against extracting parts of it into helpers and against wrappers around it.
 func (c *Ctx) deepestReachingAll(pkgRel string, objs ...*types.Func) []*ssa.Function {
-	var cands []*ssa.Function
-	for _, f := range c.P.ModFuncs() {
-		if f.Parent() != nil || f.Package() == nil || f.Package().Pkg.Path() != c.P.Rel(pkgRel) {
-			continue
-		}
-		all := true
-		for _, o := range objs {
-			o := o
-			if !c.reaches(f, 3, func(cl *core.Call) bool { return cl.Is(o) }) {
-				all = false
-				break
-			}
-		}
-		if all {
-			cands = append(cands, f)
-		}
+	var preds []func(*core.Call) bool
+	for _, o := range objs {
+		o := o
+		preds = append(preds, func(cl *core.Call) bool { return cl.Is(o) })
 	}
-	isCand := map[*ssa.Function]bool{}
-	for _, f := range cands {
-		isCand[f] = true
+	return c.deepestReaching(pkgRel, preds...)
+}
+
+// pathsInlinedPkg enumerates the paths of fn with the bodies of the declared functions of fn's own package that it
+// calls statically spliced in (three levels deep), whatever they contain: helpers extracted from fn are seen through.
+func (c *Ctx) pathsInlinedPkg(fn *ssa.Function, opts core.PathOpts, skip func(*ssa.Function) bool) ([]*core.Path, error) {
+	paths, err := core.EnumPaths(fn, opts)
+	if err != nil {
+		return nil, err
 	}
-	var out []*ssa.Function
-	for _, f := range cands {
-		callsOther := false
-		seen := map[*ssa.Function]bool{}
-		var walk func(g *ssa.Function, d int)
-		walk = func(g *ssa.Function, d int) {
-			if d < 0 || seen[g] {
-				return
-			}
-			seen[g] = true
-			for _, cl := range core.CallsIn(g) {
-				if _, isGo := cl.Instr.(*ssa.Go); isGo {
-					continue
-				}
-				if cl.Static != nil && cl.Static != f {
-					if isCand[cl.Static] {
-						callsOther = true
-					}
-					if cl.Static.Pkg != nil && c.P.IsModPkg(cl.Static.Pkg.Pkg) {
-						walk(cl.Static, d-1)
-					}
-				}
-			}
+	pick := func(cl *core.Call) *ssa.Function {
+		g := cl.Static
+		if g == nil || g == fn || g.Pkg == nil || g.Pkg != fn.Pkg || c.P.IsGenerated(g) || g.Parent() != nil || len(g.Blocks) == 0 {
+			return nil
 		}
-		walk(f, 3)
-		if !callsOther {
-			out = append(out, f)
+		if skip != nil && skip(g) {
+			return nil
 		}
+		return g
 	}
-	return out
+	enum := func(g *ssa.Function) ([]*core.Path, error) { return core.EnumPaths(g, core.PathOpts{Assume: opts.Assume}) }
+	return core.ExpandInline(paths, pick, enum, 3, 300000)
 }
